@@ -191,9 +191,50 @@ func init() {
 		}
 		return Str{S: fmt.Sprintln(nat...)}
 	})
-	reg("fmt.Fprintf", func(m *Machine, fn *ssa.Function, args []Value) Value {
-		return Tuple{m.i64(0), Iface{}}
-	})
+	// Fprint*: format (natively, placeholders for symbolic operands) and Write to the interpreted writer.
+	fprint := func(kind string) intrinsic {
+		return func(m *Machine, fn *ssa.Function, args []Value) Value {
+			var text Str
+			switch kind {
+			case "f":
+				rest, _ := args[2].(Slice)
+				text = m.sprintf(args[1].(Str), rest)
+			default:
+				rest, _ := args[1].(Slice)
+				nat := make([]interface{}, len(rest))
+				allStr := true
+				for i, a := range rest {
+					nat[i] = m.nativeArg(a)
+					if ia, ok := a.(Iface); !ok || !isString(ia.T) {
+						allStr = false
+					}
+				}
+				if allStr && len(rest) == 1 {
+					// keep symbolic content of a single string operand
+					text = rest[0].(Iface).V.(Str)
+					if kind == "ln" {
+						text = m.strConcat(text, Str{S: "\n"})
+					}
+				} else if kind == "ln" {
+					text = Str{S: fmt.Sprintln(nat...)}
+				} else {
+					text = Str{S: fmt.Sprint(nat...)}
+				}
+			}
+			w := args[0].(Iface)
+			if w.T == nil {
+				m.rtPanic("invalid memory address or nil pointer dereference (nil io.Writer)")
+			}
+			wf := m.methodOf(w.T, "Write")
+			if wf == nil {
+				m.unsupported("Fprint to a writer without Write: " + w.T.String())
+			}
+			return m.callFn(wf, []Value{w.V, m.strToBytes(text)}, nil)
+		}
+	}
+	reg("fmt.Fprintf", fprint("f"))
+	reg("fmt.Fprintln", fprint("ln"))
+	reg("fmt.Fprint", fprint(""))
 	for _, n := range []string{"log.Printf", "log.Println", "log.Print"} {
 		reg(n, func(m *Machine, fn *ssa.Function, args []Value) Value { return nil })
 	}
@@ -307,6 +348,21 @@ func init() {
 			return m.i64(-1)
 		}
 		return m.i64(1)
+	})
+	cmpStr := func(m *Machine, a, b Str) Value {
+		if m.Decide(m.strEq(a, b)) {
+			return m.i64(0)
+		}
+		if m.Decide(m.strLess(a, b)) {
+			return m.i64(-1)
+		}
+		return m.i64(1)
+	}
+	reg("internal/bytealg.CompareString", func(m *Machine, fn *ssa.Function, args []Value) Value {
+		return cmpStr(m, args[0].(Str), args[1].(Str))
+	})
+	reg("strings.Compare", func(m *Machine, fn *ssa.Function, args []Value) Value {
+		return cmpStr(m, args[0].(Str), args[1].(Str))
 	})
 	reg("internal/bytealg.MakeNoZero", func(m *Machine, fn *ssa.Function, args []Value) Value {
 		n := m.ConcInt(args[0])
@@ -431,8 +487,26 @@ func init() {
 	reg("time.Now", func(m *Machine, fn *ssa.Function, args []Value) Value {
 		return m.zero(fn.Signature.Results().At(0).Type())
 	})
-	reg("time.Since", func(m *Machine, fn *ssa.Function, args []Value) Value { return m.i64(0) })
-	reg("time.Until", func(m *Machine, fn *ssa.Function, args []Value) Value { return m.i64(0) })
+	timeSub := func(m *Machine, a, b Value) Value {
+		tt := m.Prog.Package("time").Type("Time").Type()
+		f := m.methodOf(tt, "Sub")
+		return m.callFn(f, []Value{a, b}, nil)
+	}
+	// the engine's clock is frozen at the zero Time: Until(t) = t - now, Since(t) = now - t
+	reg("time.Since", func(m *Machine, fn *ssa.Function, args []Value) Value {
+		return timeSub(m, m.zero(fn.Signature.Params().At(0).Type()), args[0])
+	})
+	reg("time.Until", func(m *Machine, fn *ssa.Function, args []Value) Value {
+		return timeSub(m, args[0], m.zero(fn.Signature.Params().At(0).Type()))
+	})
+	reg("time.AfterFunc", func(m *Machine, fn *ssa.Function, args []Value) Value {
+		// no timers run: the returned *Timer is inert
+		cell := new(Value)
+		*cell = m.zero(deref(fn.Signature.Results().At(0).Type()))
+		return cell
+	})
+	reg("(*time.Timer).Stop", func(m *Machine, fn *ssa.Function, args []Value) Value { return m.C.True })
+	reg("(*time.Timer).Reset", func(m *Machine, fn *ssa.Function, args []Value) Value { return m.C.True })
 }
 
 func errorIface() *types.Interface {
